@@ -99,6 +99,7 @@ func verifC16AttrSizes() {
 	var nom NominationAttribute
 	e := nom.GetFromWithType(m, DefaultNominationAttribute)
 	verifAssert(verifImplies(n < 4, e != nil), "nomination-rejects-short-values")
+	verifAssertKnown((e == nil) == (n == 4), "nomination-accepts-exactly-4-bytes", "C16-nomination-accepts-oversized-values", n > 4)
 	verifReach("done")
 }
 
@@ -335,9 +336,15 @@ func verifC16Tokenizers() {
 	verifReach("done")
 }
 
-func verifExtByteOK(b byte) bool {
-	// grammar-valid byte-string character without space, ASCII
+func verifExtASCIIOK(b byte) bool {
 	return verifAnd(verifAnd(b > 0x20, b < 0x7F), verifAnd(b != '\n', b != '\r'))
+}
+
+func verifExtByteOK(b byte) bool {
+	// RFC 5245 byte-string: any byte except NUL, LF, CR — and SP, the separator
+	// (1*(%x01-09/%x0B-0C/%x0E-FF)); bytes above 0x7F included, whatever UTF-8
+	// sequence they may or may not form
+	return verifAnd(verifAnd(b != 0, b != ' '), verifAnd(b != '\n', b != '\r'))
 }
 
 // (c') unmarshalCandidateExtensions(marshalExtensions(x)) = x.
@@ -346,11 +353,14 @@ func verifC16Extensions() {
 	c := &candidateBase{}
 	for i := 0; i < n; i++ {
 		k, v := verifString(1+verifChoice(2)), verifString(1+verifChoice(2))
+		// the first byte of the first key and value ranges over the whole
+		// byte-string alphabet (bytes above 0x7F included), the others over its
+		// printable ASCII part (keeps the case split over UTF-8 sequences small)
 		for j := 0; j < len(k); j++ {
-			verifAssume(verifExtByteOK(k[j]))
+			verifAssume(verifIteBool(i == 0 && j == 0, verifExtByteOK(k[j]), verifExtASCIIOK(k[j])))
 		}
 		for j := 0; j < len(v); j++ {
-			verifAssume(verifExtByteOK(v[j]))
+			verifAssume(verifIteBool(i == 0 && j == 0, verifExtByteOK(v[j]), verifExtASCIIOK(v[j])))
 		}
 		verifAssume(!verifStrEq(k, "tcptype"))
 		c.extensions = append(c.extensions, CandidateExtension{k, v})
